@@ -232,13 +232,16 @@ def pdf(fam, x, **p):
             zz = np.where(z > 0, z, 1.0)
             zb = zz**b
             val = d * b / a * zz ** (b - 1) * np.exp(-zb) * np.exp((d - 1) * _log1mexp(zb))
-            return np.where(z > 0, val, 0.0)
+            # at x = 0 the formula is singular for beta*delta < 1 (virocon deliberately returns 0 there): not judged
+            at0 = np.where(b * d > 1, 0.0, np.nan)
+            return np.where(z > 0, val, np.where(z == 0, at0, 0.0))
         if fam == "gengamma":
             m, c, lam = _f(p["m"]), _f(p["c"]), _f(p["lambda_"])
             z = x * lam
             zz = np.where(z > 0, z, 1.0)
             logv = np.log(c) + np.log(lam) + (c * m - 1) * np.log(zz) - zz**c - sp.gammaln(m)
-            return np.where(z > 0, np.exp(logv), 0.0)
+            at0 = np.where(c * m < 1, np.inf, np.where(c * m == 1, c * lam / sp.gamma(m), 0.0))
+            return np.where(z > 0, np.exp(logv), np.where(z == 0, at0, 0.0))
         if fam == "vonmises":
             k, mu = _f(p["kappa"]), _f(p["mu"])
             return np.exp(k * (np.cos(x - mu) - 1.0)) / (2 * math.pi * sp.ive(0, k))
@@ -247,7 +250,8 @@ def pdf(fam, x, **p):
             z = (x - loc) / sc
             zz = np.where(z > 0, z, 1.0)
             logv = (a - 1) * np.log(zz) - zz - sp.gammaln(a) - np.log(sc)
-            return np.where(z > 0, np.exp(logv), 0.0)
+            at0 = np.where(a < 1, np.inf, np.where(a == 1, 1.0 / sc, 0.0))
+            return np.where(z > 0, np.exp(logv), np.where(z == 0, at0, 0.0))
         if fam == "rayleigh":
             loc, sc = _f(p["loc"]), _f(p["scale"])
             z = (x - loc) / sc
